@@ -11,7 +11,8 @@ VShape(e) ==
       P == [i \in DOMAIN e.P |-> V3s(e.P[i])]
       got == [i \in DOMAIN e.got |-> V3s(e.got[i])]
       npairs == Cardinality(Pairs(e.G, e.N, e.R, ops, s, P, e.thr))
-  IN IF \E o \in DOMAIN ops : ~IsIsometry(e.G, ops[o].W) \/ MatMul(ops[o].W, ops[o].Winv) # Ident3 THEN "harness-operation-not-an-isometry"
+  IN IF e.inputChanged THEN "input-trajectory-altered-by-the-analysis"
+     ELSE IF \E o \in DOMAIN ops : ~IsIsometry(e.G, ops[o].W) \/ MatMul(ops[o].W, ops[o].Winv) # Ident3 THEN "harness-operation-not-an-isometry"
      ELSE IF Len(got) # npairs THEN "count-of-collected-points"
      ELSE IF \E i \in DOMAIN got : NormSq(e.G, got[i]) >= e.thr THEN "point-outside-radius"
      ELSE IF BagOfSeq(got) # BagOfVectors(e.G, e.N, e.R, ops, s, P, e.thr) THEN "point-not-the-inverse-image-of-its-source"
